@@ -20,6 +20,10 @@ TRUSTED = [
     "out-of-bounds writes are OBSERVED through numba's own bounds check (NUMBA_BOUNDSCHECK=1) or plain numpy "
     "indexing (NUMBA_DISABLE_JIT=1): an IndexError there means the default build writes outside the buffer; "
     "a sample of cases also runs in numba's default configuration in isolated child processes",
+    "object identity (Model/ChargeHeap.v): numpy's reference semantics are modelled -- `x += y` writes into the object x "
+    "is bound to, `x = ...` rebinds, basic indexing / .view() / np.asarray share memory, .copy() / np.array / arithmetic "
+    "allocate; the translator classifies expressions with these rules (fail closed on anything it cannot classify); "
+    "pandas >= 3 (copy-on-write): only the SAME DataFrame object is shared, DataFrame(dict of arrays) copies",
     "modelled, not verified: numpy float64 arithmetic on the generated (exactly representable) charge values equals "
     "rational arithmetic; np.floor_divide = floor of the exact quotient of the two binary64 values; boolean-mask "
     "indexing of numpy arrays; pandas concat/query index semantics; numba wraparound indexing (index in [-n,-1] -> "
@@ -672,34 +676,70 @@ def emit_hfile(pairs) -> str:
             "Eval vm_compute in hfirst_bad_mems cases.\n")
 
 
-def hclassify(c, k_bad: int, mem: bool) -> str:
-    """Input class of the failing prefix: which caller-owned object the container shares memory with."""
+def caller_memory(ops, trace):
+    """What the caller's own memory must hold after each op: (arrays, to_xarray results, DataFrames) -- the python twin
+    of cm_step / xs_step of Model/ChargeHeap.v, used only to NAME the object a violation is about."""
+    args, xr, dfs, kinds, out = [], [], [], [], []
+    for o, t in zip(ops, trace):
+        k = o["op"]
+        if k == "new":
+            args.append(o["a"])
+        elif k == "write":
+            kind, i = o["h"]
+            if kind == "arg" and i < len(args):
+                args[i] = o["a"]
+            elif kind == "res" and i < len(kinds) and kinds[i] == "xr":
+                xr[sum(1 for x in kinds[:i] if x == "xr")] = o["a"]
+        elif k == "newdf":
+            dfs.append(o["cs"])
+        elif k == "writedf" and o["k"] < len(dfs):
+            dfs[o["k"]] = o["cs"]
+        elif k in ("read", "xr", "np"):
+            kinds.append(k)
+            if k == "xr" and t.get("o") == "arr":
+                xr.append(t["m"])
+        out.append(([list(map(list, a)) for a in args], [list(map(list, a)) for a in xr], [list(map(list, d)) for d in dfs]))
+    return out
+
+
+def hclassify(c, res, k_bad: int, mem: bool) -> str:
+    """Which caller-owned object the container shares memory with, for the failing prefix ops[:k_bad]."""
     ops = c["ops"][:k_bad]
+    tr = res.get("trace", [])[:k_bad]
+    if mem and len(tr) == len(ops) and ops:
+        want = caller_memory(ops, tr)[-1]
+        got = tr[-1]
+        if got.get("args") != want[0]:
+            return "caller_array_aliased"
+        if got.get("dfs") != want[2]:
+            return "caller_dataframe_aliased"
+        if got.get("xr") != want[1]:
+            return "xarray_result_aliased"
     names = [o["op"] for o in ops]
-    df = "adddf" in names and ("writedf" in names or "rm" in names or names.count("adddf") > 1)
-    ar = "add" in names
-    if df and not (ar and "writedf" not in names and "rm" not in names):
-        return "caller_dataframe_aliased"
-    if ar:
-        return "caller_array_aliased"
-    if "cl" in names and not mem:
-        return "cluster_arrays_aliased"
     if any(o["op"] == "write" and o["h"][0] == "res" for o in ops):
-        return "returned_copy_aliased"
-    return "caller_memory_modified" if mem else "accounting"
+        return "xarray_result_aliased"
+    if "writedf" in names or ("adddf" in names and ("rm" in names or names.count("adddf") > 1)):
+        return "caller_dataframe_aliased"
+    if "add" in names and ("write" in names or names.count("add") > 1):
+        return "caller_array_aliased"
+    if "cl" in names:
+        return "cluster_arrays_aliased"
+    return "aliasing_other"
 
 
-def evaluate_heap(ctx: Ctx, items, tag: str):
-    """items: [(case, result, mode)] -> (mismatch items, [(item, first bad read, first bad mem)] violations, kept)."""
+def hprepare(ctx: Ctx, items, tag: str):
     kept = []
     for c, r, mode in items:
         if "crash" in r or "driver_error" in r or "trace" not in r:
             ctx.broken.append(Broken("correspondence", "implementation driver failed", str(r)[:500], c))
             continue
         kept.append((c, r, mode))
-    per = 150 if ctx.quick else 300
+    per = 120 if ctx.quick else 300
     files = {f"{tag}_{k // per:03d}": emit_hfile([(c, r) for c, r, _ in kept[k:k + per]]) for k in range(0, len(kept), per)}
-    res = core.coq_eval_many(ctx, files, timeout=900, par=8)
+    return files, kept, per
+
+
+def hdigest(ctx: Ctx, res, files, kept, per):
     mism, viol = [], []
     for k, name in enumerate(sorted(files)):
         ok, evals, se = res[name]
@@ -715,6 +755,14 @@ def evaluate_heap(ctx: Ctx, items, tag: str):
             mism.append(chunk[i])
         for i in vi:
             viol.append((chunk[i], fr[i], fm[i]))
+    return mism, viol
+
+
+def evaluate_heap(ctx: Ctx, items, tag: str):
+    """items: [(case, result, mode)] -> (mismatch items, [(item, first bad read, first bad mem)] violations, kept)."""
+    files, kept, per = hprepare(ctx, items, tag)
+    res = core.coq_eval_many(ctx, files, timeout=900, par=8)
+    mism, viol = hdigest(ctx, res, files, kept, per)
     return mism, viol, kept
 
 
@@ -724,10 +772,10 @@ def h_bad(fr: int, fm: int):
     return min(cands) if cands else (0, False)
 
 
-def to_hviolation(item, fr: int, fm: int) -> Violation:
+def to_hviolation(item, fr: int, fm: int, clause=None) -> Violation:
     c, res, mode = item
     k_bad, mem = h_bad(fr, fm)
-    clause = hclassify(c, k_bad, mem)
+    clause = clause or hclassify(c, res, k_bad, mem)
     tr = res.get("trace", [])
     short = dict(rows=c["rows"], cols=c["cols"], ph=c["ph"], pw=c["pw"], ops=c["ops"][:k_bad], mode=mode, heap=True,
                  reset_via=c.get("reset_via", "charge"), stream=c.get("stream"))
@@ -806,14 +854,16 @@ def hshrink(ctx: Ctx, item, fr: int, fm: int, rounds: int = 10):
 
 
 def report_hviolations(ctx: Ctx, viol):
+    """One shrunk representative per class of shared object (classified again after shrinking: the minimal case names
+    its object precisely), then the rest."""
     by = {}
     for item, fr, fm in viol:
         k_bad, mem = h_bad(fr, fm)
-        by.setdefault(hclassify(item[0], k_bad, mem), []).append((item, fr, fm))
-    firsts = []
-    for clause, lst in by.items():
-        item, fr, fm = min(lst, key=lambda t: h_bad(t[1], t[2])[0])
-        if len(firsts) < 6:
+        by.setdefault(hclassify(item[0], item[1], k_bad, mem), []).append((item, fr, fm))
+    firsts, final = {}, {}
+    for n, (clause, lst) in enumerate(sorted(by.items(), key=lambda kv: min(h_bad(t[1], t[2])[0] for t in kv[1]))):
+        item, fr, fm = min(lst, key=lambda t: (h_bad(t[1], t[2])[0], len(json.dumps(t[0][0]["ops"]))))
+        if n < 5:
             try:
                 item2, fr2, fm2 = hshrink(ctx, item, fr, fm)
                 v = to_hviolation(item2, fr2, fm2)
@@ -822,9 +872,15 @@ def report_hviolations(ctx: Ctx, viol):
                 v = to_hviolation(item, fr, fm)
         else:
             v = to_hviolation(item, fr, fm)
-        firsts.append(v)
-    ctx.violations += firsts
-    ctx.violations += [to_hviolation(item, fr, fm) for item, fr, fm in viol]
+        final[clause] = v.clause
+        old = firsts.get(v.clause)
+        if old is None or len(json.dumps(v.case["ops"])) < len(json.dumps(old.case["ops"])):
+            firsts[v.clause] = v
+    ctx.violations += list(firsts.values())
+    # the rest, filed under the class its (shrunk) representative turned out to belong to
+    for item, fr, fm in viol:
+        k_bad, mem = h_bad(fr, fm)
+        ctx.violations.append(to_hviolation(item, fr, fm, clause=final.get(hclassify(item[0], item[1], k_bad, mem))))
 
 
 def h_disciplined(c) -> bool:
@@ -901,8 +957,8 @@ def run_impl(ctx: Ctx, cases, mode: str, workers=8, batch=None, per_child=1):
     return res
 
 
-def evaluate(ctx: Ctx, items, tag: str):
-    """items: [(case, result, mode)] -> (mismatch items, [(item, first_bad)] violations)."""
+def prepare(ctx: Ctx, items, tag: str):
+    """items: [(case, result, mode)] -> (case files, kept items, cases per file)."""
     triples = []
     kept = []
     for c, r, mode in items:
@@ -914,7 +970,11 @@ def evaluate(ctx: Ctx, items, tag: str):
     per = 80 if ctx.quick else 160
     files = {f"{tag}_{k // per:03d}": emit_file(triples[k:k + per], selfcheck=not ctx.quick)
              for k in range(0, len(triples), per)}
-    res = core.coq_eval_many(ctx, files, timeout=900, par=8)
+    return files, kept, per
+
+
+def digest(ctx: Ctx, res, files, kept, per):
+    """-> (mismatch items, [(item, first_bad, mismatching)] violations)."""
     mism, viol = [], []
     for k, name in enumerate(sorted(files)):
         ok, evals, se = res[name]
@@ -933,6 +993,14 @@ def evaluate(ctx: Ctx, items, tag: str):
         for i in sc:
             ctx.broken.append(Broken("correspondence", "specification self-check (ideal container vs accumulator)",
                                      "the two executable forms of the specification disagree", chunk[i][0]))
+    return mism, viol
+
+
+def evaluate(ctx: Ctx, items, tag: str):
+    """items: [(case, result, mode)] -> (mismatch items, [(item, first_bad)] violations)."""
+    files, kept, per = prepare(ctx, items, tag)
+    res = core.coq_eval_many(ctx, files, timeout=900, par=8)
+    mism, viol = digest(ctx, res, files, kept, per)
     return mism, viol, kept
 
 
@@ -1169,7 +1237,11 @@ def run(ctx: Ctx):
         "array additions are non-negative (cases with negative entries are compared with the model but not judged)",
         "pixel sizes > 0; charge values are small dyadic numbers so that float sums are exact; positions and pixel "
         "sizes are arbitrary binary64 values taken as the exact rationals they are",
-        "only Charge built by a Detector and clusters added through Charge.add_charge (RangeIndex frames)",
+        "only Charge built by a Detector and clusters added through Charge.add_charge / add_charge_dataframe with "
+        "DataFrames built by Charge.create_charges (RangeIndex frames)",
+        "heap sequences: the theorems and the judge cover callers that write only into objects they own (their arrays "
+        "and DataFrames, to_xarray results); sequences that also write through the views `.array` / np.asarray hand out "
+        "(the container's own buffer, as coded) are compared with the model but not judged",
     ]
     t = time.time()
     proof(ctx)
@@ -1204,7 +1276,34 @@ def run(ctx: Ctx):
         (dflt, "default", 4, None, 20),
         (unsafe, "default", 6, 2, 1),
     ]
-    mism, viol, kept = correspondence(ctx, plan)
+    # object identity: the caller keeps and mutates what it passes to / receives from the container
+    rh = ctx.rng("heap")
+    hcorpus = load_corpus(heap=True)
+    henum = henum_cases(ctx.budget(3, 4))
+    ctx.cov["exhaustive_small_scope_heap"] = dict(alphabet=len(HENUM_ALPHABET), max_len=ctx.budget(3, 4),
+                                                  sequences=len(henum))
+    hfast = hcorpus + henum + [gen_hcase(rh) for _ in range(ctx.budget(450, 4000))]
+    hjit = hcorpus + [gen_hcase(rh) for _ in range(ctx.budget(40, 400))]
+    # all implementation runs first, then ONE parallel evaluation of every case file inside Coq
+    ph = ctx.cov.setdefault("phase_seconds", {})
+    items, hitems = [], []
+    for cases, mode, workers, batch, per_child in plan:
+        t = time.time()
+        rs = run_impl(ctx, cases, mode, workers=workers, batch=batch, per_child=per_child)
+        ph[f"c:impl:{mode}"] = round(ph.get(f"c:impl:{mode}", 0) + time.time() - t, 1)
+        items += [(c, rr, mode) for c, rr in zip(cases, rs)]
+    for cases, mode, workers in [(hfast, "nojit", 6), (hjit, "checked", 4)]:
+        t = time.time()
+        rs = run_impl(ctx, cases, mode, workers=workers)
+        ph[f"h:impl:{mode}"] = round(time.time() - t, 1)
+        hitems += [(c, rr, mode) for c, rr in zip(cases, rs)]
+    t = time.time()
+    files, kept, per = prepare(ctx, items, "c")
+    hfiles, hkept, hper = hprepare(ctx, hitems, "h")
+    res = core.coq_eval_many(ctx, {**files, **hfiles}, timeout=900, par=8)
+    mism, viol = digest(ctx, res, files, kept, per)
+    hmism, hviol = hdigest(ctx, res, hfiles, hkept, hper)
+    ph["coq_eval"] = round(time.time() - t, 1)
     seen = account(ctx, kept)
     ctx.cov["distinct_nontrivial"] = len(seen)
     ctx.cov["rule"] = ("op sequences (1-10 ops + a final read) on a real detector.charge; non-trivial = mixes array and "
@@ -1220,15 +1319,6 @@ def run(ctx: Ctx):
         ctx.sample(dict(geometry=[c["rows"], c["cols"], c["ph"], c["pw"]], ops=c["ops"][:4], n_ops=len(c["ops"]),
                         mode=m, last=rr["trace"][-1] if rr.get("trace") else None))
     report_violations(ctx, viol)
-    # object identity: the caller keeps and mutates what it passes to / receives from the container
-    rh = ctx.rng("heap")
-    hcorpus = load_corpus(heap=True)
-    henum = henum_cases(ctx.budget(3, 4))
-    ctx.cov["exhaustive_small_scope_heap"] = dict(alphabet=len(HENUM_ALPHABET), max_len=ctx.budget(3, 4),
-                                                  sequences=len(henum))
-    hfast = hcorpus + henum + [gen_hcase(rh) for _ in range(ctx.budget(500, 4000))]
-    hjit = hcorpus + [gen_hcase(rh) for _ in range(ctx.budget(40, 400))]
-    hmism, hviol, hkept = hcorrespondence(ctx, [(hfast, "nojit", 6), (hjit, "checked", 4)])
     seen |= haccount(ctx, hkept)
     ctx.cov["distinct_nontrivial"] = len(seen)
     ctx.cov["traces_validated_against_impl"] = len(kept) + len(hkept)
@@ -1361,15 +1451,26 @@ META = dict(
         "translator reads in charge.py / geometry.py on every run -- and C14_source_is_model re-proves that these are "
         "the model's. That the rest of the model describes the Python is established by correspondence (= testing): "
         "generated op sequences run on a real detector.charge and are compared with the model inside Coq after "
-        "every op; the implementation's reads are judged inside Coq against the accumulator / ideal container."),
+        "every op; the implementation's reads are judged inside Coq against the accumulator / ideal container. "
+        "Object identity: a second machine (Model/ChargeHeap.v) runs the same container on a small heap -- Charge._array "
+        "is a reference, add_charge_array receives the caller's array OBJECT, reads hand out objects, and the caller may "
+        "overwrite any object it holds, re-add it, modify an added DataFrame; theorems for ALL such sequences by a caller "
+        "that writes only into what it owns: every observation equals that of the by-value history (an addition "
+        "contributes the value its argument held at the time of the call), hence the accumulator / ledger; the caller's "
+        "arrays and DataFrames hold exactly what the caller put there; a to_xarray result is a snapshot. What the source "
+        "shares (in-place `+=` vs rebinding to the argument, what .array / __array__ / to_xarray return, any binding of "
+        "self._array / self._frame to a parameter) is regenerated by the translator (hsrc) and C14_heap_source_is_model "
+        "re-proves on every run that nothing the caller owns is kept or written."),
     level_note=(
         "Trusted: Coq kernel + vm_compute; the translator (fail closed), the correspondence harness and driver; numpy "
         "float sums are exact on the generated dyadic charge values; np.floor_divide is the floor of the exact "
         "quotient of the two binary64 values; pandas index semantics; out-of-bounds accesses are observed via numba's "
         "bounds check / plain numpy indexing (IndexError), with a sample in the default configuration in isolated "
         "processes. Not carried: negative array entries (outside the property's hypothesis: compared with the model, "
-        "not judged); user-supplied DataFrames with arbitrary indexes; set_frame_values; Charge.__array__."),
-    technique="Coq refinement + simulation proofs (state machine over Q vs accumulator / ledger / ideal container), "
-              "translator-regenerated index arithmetic, in-Coq correspondence/spec evaluation",
+        "not judged); user-supplied DataFrames with arbitrary indexes; set_frame_values; writes through the views "
+        "`.array` / np.asarray expose (modelled and compared, not judged)."),
+    technique="Coq refinement + simulation proofs (state machine over Q vs accumulator / ledger / ideal container; heap "
+              "machine with object identity vs the by-value machine), translator-regenerated index arithmetic and "
+              "sharing audit, in-Coq correspondence/spec evaluation",
     design_ref="DESIGN.md section 6, C14",
 )
